@@ -5,6 +5,7 @@
 //       t <ms> | poll | run <n> (n times: poll, advance 1 ms) | acc <bits> | accdef <0|1> | canopen <0|1> | claim <dev>
 //       hbset <interval> <offset> <dev|-1> | hbforce | hbdev <dev> | get | m64
 //       devlist <originA> <originB>   (device-list request pacing probe run from two origins, traces compared; oracle only)
+//       probe <tp|slots|pend> <originA> <originB>   (ISO-TP / reassembly-slot ageing / pending-information scenario from two origins; oracle only)
 //       gfreq <dev|-1> <interval ms> <offset 10ms> <pairs>   (PGN 126208 request for PGN 126993 from source 50 arrives, then one poll;
 //                                                           output = the heartbeat frames only, acknowledgements are C09's)
 // C12 oracle: heartbeat grid computed from the observed open time, the default interval 60 s, the offset in force after open
@@ -148,7 +149,7 @@ static void oraclePoll(const std::vector<Frame> &fr) {
 }
 
 // ------------------------------------------------------------------------------------------------ C13 bookkeeping
-struct Run { uint64_t origin; std::vector<std::string> ops, outs; std::vector<uint64_t> rel; bool risk = false, sparse = false, boundary = false; long firstLine = 0; };
+struct Run { uint64_t origin; std::vector<std::string> ops, outs; std::vector<uint64_t> rel; bool risk = false, sparse = false, boundary = false; long firstLine = 0; uint64_t endRel = 0; };
 static std::vector<Run> group;
 static std::string groupId;
 static bool inRun = false;
@@ -210,12 +211,14 @@ static void finishGroup() {
       // a FromNow() landed on the scheduler's "disabled" value in one of the runs: that deadline is armed 1 ms later (documented slack)
       if (a.sparse) { C.count("c13_pairs_skipped_sentinel_sparse"); continue; }
       std::vector<Ev> ea = events(a), eb = events(b);
-      bool ok = ea.size() == eb.size();
-      for (size_t i = 0; ok && i < ea.size(); i++) { uint64_t d = ea[i].t > eb[i].t ? ea[i].t - eb[i].t : eb[i].t - ea[i].t; if (ea[i].f != eb[i].f || d > 1) ok = false; }
+      // an event in the last 2 ms of the script may fall outside the other run's (1 ms later) window
+      { uint64_t end = a.endRel < b.endRel ? a.endRel : b.endRel; while (!ea.empty() && ea.back().t + 2 >= end) ea.pop_back(); while (!eb.empty() && eb.back().t + 2 >= end) eb.pop_back(); }
+      bool ok = ea.size() == eb.size(); std::string firstDiff = "event counts " + std::to_string(ea.size()) + " / " + std::to_string(eb.size());
+      for (size_t i = 0; i < ea.size() && i < eb.size(); i++) { uint64_t d = ea[i].t > eb[i].t ? ea[i].t - eb[i].t : eb[i].t - ea[i].t; if (ea[i].f != eb[i].f || d > 1) { ok = false; firstDiff = "event " + std::to_string(i) + ": +" + std::to_string(ea[i].t) + " " + ea[i].f + " / +" + std::to_string(eb[i].t) + " " + eb[i].f; break; } }
       if (!ok && (a.boundary || b.boundary)) { C.count("c13_pairs_skipped_sentinel_at_grid_boundary"); continue; }
       C.count(ok ? "c13_pairs_within_1ms_sentinel" : "c13_pairs_sentinel_beyond_1ms");
       if (ok) continue;
-      C.fail(std::string("C13:origin-dependence:") + FLAVOR + ":" + kind + ":beyond-1ms", "scenario %s origins %llu / %llu: traces differ by more than the 1 ms sentinel slack (first at op %zu `%s`)", groupId.c_str(), (unsigned long long)a.origin, (unsigned long long)b.origin, diff, a.ops[diff].c_str());
+      C.fail(std::string("C13:origin-dependence:") + FLAVOR + ":" + kind + ":beyond-1ms", "scenario %s origins %llu / %llu: traces differ by more than the 1 ms sentinel slack (first differing output at op %zu `%s`; %s)", groupId.c_str(), (unsigned long long)a.origin, (unsigned long long)b.origin, diff, a.ops[diff].c_str(), firstDiff.c_str());
       continue;
     }
     C.fail(std::string("C13:origin-dependence:") + FLAVOR + ":" + kind, "scenario %s origins %llu / %llu: op %zu `%s` gives `%s` / `%s`", groupId.c_str(), (unsigned long long)a.origin, (unsigned long long)b.origin, diff, a.ops[diff].c_str(), a.outs[diff].substr(0, 200).c_str(), b.outs[diff].substr(0, 200).c_str());
@@ -229,12 +232,13 @@ static void finishGroup() {
 
 static void emit(const std::string &out) {
   C.outs(out);
-  if (inRun) { group.back().outs.push_back(out); }
+  if (inRun) { group.back().outs.push_back(out); group.back().endRel = g_now - originNow; }
 }
 
 static std::string framesOut(std::vector<Frame> &fr) { std::string s; for (auto &f : fr) { if (!s.empty()) s += ' '; s += frameStr(f); } return s.empty() ? "-" : s; }
 
 struct DlEv; static void devlistCompare(uint64_t oa, uint64_t ob);
+static void probeCompare(const std::string &kind, uint64_t oa, uint64_t ob);
 static void beforePoll() { for (int d = 0; d < nDev && d < 16; d++) claimOnBefore[d] = N->claimTimerOn(d); }
 static void trackOpen(bool wasOpen) { if (!wasOpen && N->isOpen()) { onOpened(); C.count("opened"); } }
 
@@ -246,6 +250,12 @@ static void exec(const std::string &line) {
     finishGroup(); C.op("%s", line.c_str());
     uint64_t oa = strtoull(w[1].c_str(), 0, 10), ob = strtoull(w[2].c_str(), 0, 10);
     devlistCompare(oa, ob);
+    delete N; N = nullptr; C.out("ok"); return;
+  }
+  if (w[0] == "probe") {
+    // probe <tp|slots|pend> <originA> <originB>: a scenario of another timed machine of the library from two clock origins
+    finishGroup(); C.op("%s", line.c_str());
+    probeCompare(w[1], strtoull(w[2].c_str(), 0, 10), strtoull(w[3].c_str(), 0, 10));
     delete N; N = nullptr; C.out("ok"); return;
   }
   if (w[0] == "scenario") { finishGroup(); groupId = w.size() > 1 ? w[1] : "?"; C.op("%s", line.c_str()); C.out("ok"); return; }
@@ -473,6 +483,133 @@ static void devlistCompare(uint64_t oa, uint64_t ob) {
   C.cases++;
 }
 
+
+// ------------------------------------------------------------------------------------------------ timed-machine probes (C13)
+// Whole scenarios of the other timed machines of the library, run on the real node from two clock origins with a poll every
+// millisecond; the traces (relative ms, event) must be equal (32-bit build: within the 1 ms sentinel slack of tN2kScheduler).
+//   tp    : ISO-TP sender (RTS/CTS/EndAck, CTS and EndAck time-outs 50/100 ms, BAM with 50 ms pacing) and receiver (RTS->CTS/EndAck, BAM)
+//   slots : reassembly slots: 5 stalled fast-packet senders, later senders recycle the slot older than 100 ms
+//   pend  : pending product / configuration information: answers to ISO requests retried every 187+8a / 187+10a ms while the driver is blocked
+struct PEv { uint32_t t; std::string what; };
+static std::vector<PEv> *g_ptrace = nullptr; static uint64_t g_pt0 = 0;
+static void probeHandler(const tN2kMsg &m) { if (g_ptrace) { char b[64]; snprintf(b, sizeof b, "deliver:%lu:%u:%d", m.PGN, m.Source, m.DataLen); g_ptrace->push_back({(uint32_t)(g_now - g_pt0), b}); } }
+static unsigned long pid(unsigned prio, unsigned long pgn, unsigned src, unsigned dst) { return ((unsigned long)prio << 26) | (pgn << 8) | (((pgn >> 8) & 0xff) < 240 ? ((unsigned long)dst << 8) : 0UL) | src; }
+static std::string frameKind(const Frame &f) {
+  unsigned long pf = (f.id >> 16) & 0xff, ps = (f.id >> 8) & 0xff, dp = (f.id >> 24) & 1;
+  unsigned long pgn = pf < 240 ? (dp << 16) | (pf << 8) : (dp << 16) | (pf << 8) | ps;
+  char b[64];
+  if (pgn == 60416UL) { unsigned c = f.buf[0]; snprintf(b, sizeof b, "%s>%lu", c == 16 ? "RTS" : c == 17 ? "CTS" : c == 19 ? "EndAck" : c == 32 ? "BAM" : c == 255 ? "Abort" : "CM?", ps); return b; }
+  if (pgn == 60160UL) { snprintf(b, sizeof b, "DT%u>%lu", f.buf[0], ps); return b; }
+  snprintf(b, sizeof b, "pgn%lu#%u", pgn, f.buf[0]); return b;
+}
+struct ProbeNode { Node *n; std::vector<PEv> tr; };
+static void probeStep(ProbeNode &P) {
+  P.n->sent.clear(); P.n->ParseMessages();
+  for (auto &f : P.n->sent) P.tr.push_back({(uint32_t)(g_now - g_pt0), frameKind(f)});
+  P.n->sent.clear();
+}
+static void probeNote(ProbeNode &P, const char *what, int v) { char b[48]; snprintf(b, sizeof b, "%s=%d", what, v); P.tr.push_back({(uint32_t)(g_now - g_pt0), b}); for (auto &f : P.n->sent) P.tr.push_back({(uint32_t)(g_now - g_pt0), frameKind(f)}); P.n->sent.clear(); }
+static Node *probeMake(uint64_t origin, unsigned qsize) {
+  g_now = origin;
+  Node *n = new Node(); n->SetDeviceCount(1); n->SetDeviceInformation(4711, 130, 25, 2046, 4, 0);
+  n->SetProductInformation("00000123", 100, "Verif probe node", "1.0.0.0 (2026-09-30)", "1.0.0.0 (2026-09-30)");
+  n->SetConfigurationInformation("Manufacturer information", "Installation description one", "Installation description two");
+  n->SetMode(tNMEA2000::N2km_ListenAndNode, 30); n->EnableForward(false); n->SetN2kCANSendFrameBufSize(qsize);
+  n->SetHeartbeatIntervalAndOffset(0);   // (overwritten by Open(); the heartbeat runs at 60 s and stays outside the probe)
+  n->SetMsgHandler(probeHandler);
+  openAndSettle(*n, 700);
+  n->sent.clear();
+  return n;
+}
+static void tpMsg(tN2kMsg &m, unsigned long pgn, unsigned dst, int len) { m.Init(6, pgn, 30, dst); for (int i = 0; i < len; i++) m.AddByte((unsigned char)(i * 7 + 1)); m.SetIsTPMessage(true); }
+static std::vector<PEv> probeTP(uint64_t origin) {
+  ProbeNode P; P.n = probeMake(origin, 40); g_ptrace = &P.tr; g_pt0 = g_now;
+  const unsigned long TPGN = 126720UL;   // addressed (PDU1) proprietary fast-packet PGN: no library-side handling of the payload
+  auto cm = [&](unsigned src, unsigned dst, unsigned c, unsigned b1, unsigned b2, unsigned b3, unsigned long pgn) { unsigned char d[8] = {(unsigned char)c, (unsigned char)b1, (unsigned char)b2, (unsigned char)b3, 0xff, (unsigned char)pgn, (unsigned char)(pgn >> 8), (unsigned char)(pgn >> 16)}; P.n->rx(pid(7, 60416UL, src, dst), 8, d); };
+  auto dt = [&](unsigned src, unsigned dst, unsigned seq) { unsigned char d[8] = {(unsigned char)seq, 1, 2, 3, 4, 5, 6, 7}; P.n->rx(pid(7, 60160UL, src, dst), 8, d); };
+  for (int t = 0; t < 2700; t++) {
+    tN2kMsg m;
+    switch (t) {
+      case 100: tpMsg(m, TPGN, 50, 30); probeNote(P, "sendA", P.n->SendMsg(m, 0)); break;       // RTS, answered
+      case 120: cm(50, 30, 17, 2, 1, 0xff, TPGN); break;                                          // CTS 2 packets from 1
+      case 150: cm(50, 30, 17, 3, 3, 0xff, TPGN); break;                                          // CTS 3 packets from 3
+      case 200: cm(50, 30, 19, 30, 0, 5, TPGN); break;                                            // EndOfMsgAck
+      case 400: tpMsg(m, TPGN, 50, 30); probeNote(P, "sendB", P.n->SendMsg(m, 0)); break;       // RTS, never answered: given up after 50 ms
+      case 430: tpMsg(m, TPGN, 50, 30); probeNote(P, "sendB2", P.n->SendMsg(m, 0)); break;      // refused: transfer in progress
+      case 520: tpMsg(m, TPGN, 50, 30); probeNote(P, "sendC", P.n->SendMsg(m, 0)); break;       // accepted again
+      case 540: cm(50, 30, 17, 2, 1, 0xff, TPGN); break;                                          // CTS, then silence: given up 100 ms after the CTS
+      case 620: tpMsg(m, TPGN, 50, 30); probeNote(P, "sendC2", P.n->SendMsg(m, 0)); break;      // still in progress
+      case 700: tpMsg(m, TPGN, 50, 30); probeNote(P, "sendD", P.n->SendMsg(m, 0)); break;       // accepted
+      case 720: cm(50, 30, 255, 1, 0xff, 0xff, TPGN); break;                                      // Abort from the peer
+      case 1000: tpMsg(m, 126998UL, 255, 23); probeNote(P, "sendBAM", P.n->SendMsg(m, 0)); break;   // BAM + 4 packets, 50 ms apart
+      case 1500: cm(51, 30, 16, 20, 0, 3, TPGN); break;                                           // RTS to us: CTS
+      case 1510: dt(51, 30, 1); break; case 1520: dt(51, 30, 2); break; case 1530: dt(51, 30, 3); break;   // EndOfMsgAck + delivery
+      case 1700: cm(52, 255, 32, 20, 0, 3, TPGN); break;                                          // BAM from 52
+      case 1760: dt(52, 255, 1); break; case 1820: dt(52, 255, 2); break; case 1880: dt(52, 255, 3); break;
+      case 1900: cm(53, 30, 16, 20, 0, 3, TPGN); break;                                           // RTS, then a wrong packet number: Abort
+      case 1950: dt(53, 30, 2); break;
+      default: break;
+    }
+    probeStep(P); g_now++;
+  }
+  g_ptrace = nullptr; delete P.n; return P.tr;
+}
+static std::vector<PEv> probeSlots(uint64_t origin) {
+  ProbeNode P; P.n = probeMake(origin, 40); g_ptrace = &P.tr; g_pt0 = g_now;
+  auto fp = [&](unsigned src, unsigned k, unsigned seq) { unsigned char d[8] = {(unsigned char)((seq << 5) | k), 43, 1, 2, 3, 4, 5, 6}; if (k) d[1] = 9; P.n->rx(pid(3, 129029UL, src, 255), 8, d); };
+  for (int t = 0; t < 900; t++) {
+    // five senders start a 43 byte fast packet (7 frames) and stall: every slot is taken
+    if (t >= 100 && t <= 180 && (t - 100) % 20 == 0) fp(40 + (t - 100) / 20, 0, 1);
+    if (t == 190) fp(45, 0, 1);                  // 6th sender 90 ms after the oldest: nothing is older than 100 ms, dropped
+    if (t == 225) fp(46, 0, 1);                  // 125 ms after sender 40: its slot is recycled
+    if (t == 226) fp(47, 0, 1);                  // sender 41 started 106 ms ago: recycled
+    if (t == 228) fp(48, 0, 1);                  // sender 42 started 88 ms ago: dropped
+    if (t >= 240 && t < 246) { fp(46, t - 239, 1); fp(40, t - 239, 1); fp(43, t - 239, 1); }   // 46 and 43 complete, 40 lost its slot
+    if (t == 400) for (unsigned s = 60; s < 65; s++) fp(s, 0, 2);     // fill all slots again at one instant
+    if (t == 501) fp(70, 0, 2);                  // 101 ms later: the oldest (first in scan order) is recycled
+    if (t >= 510 && t < 516) { fp(70, t - 509, 2); fp(60, t - 509, 2); fp(61, t - 509, 2); }
+    probeStep(P); g_now++;
+  }
+  g_ptrace = nullptr; delete P.n; return P.tr;
+}
+static std::vector<PEv> probePend(uint64_t origin) {
+  ProbeNode P; P.n = probeMake(origin, 4); g_ptrace = &P.tr; g_pt0 = g_now;
+  auto isoRq = [&](unsigned src, unsigned dst, unsigned long pgn) { unsigned char d[3] = {(unsigned char)pgn, (unsigned char)(pgn >> 8), (unsigned char)(pgn >> 16)}; P.n->rx(pid(6, 59904UL, src, dst), 3, d); };
+  for (int t = 0; t < 3200; t++) {
+    if (t == 90) P.n->acceptDefault = false;     // the CAN driver stops taking frames: the 4-frame send queue fills, SendMsg fails
+    if (t == 100) isoRq(50, 30, 126996UL);       // product information (20 frames): pending, retried every 187+8*30 = 427 ms
+    if (t == 150) isoRq(50, 30, 126998UL);       // configuration information: pending, retried every 187+10*30 = 487 ms
+    if (t == 1500) P.n->acceptDefault = true;    // driver works again: the next retries go out
+    if (t == 2600) isoRq(51, 255, 126996UL);     // broadcast request, answered at once
+    probeStep(P); g_now++;
+  }
+  g_ptrace = nullptr; delete P.n; return P.tr;
+}
+static void probeCompare(const std::string &kind, uint64_t oa, uint64_t ob) {
+  std::vector<PEv> a, b;
+  if (kind == "tp") { a = probeTP(oa); b = probeTP(ob); } else if (kind == "slots") { a = probeSlots(oa); b = probeSlots(ob); } else { a = probePend(oa); b = probePend(ob); }
+  C.count("probe_" + kind + "_runs", 2); C.count("probe_" + kind + "_events", (long)a.size());
+  for (auto &e : a) { std::string w = e.what.substr(0, e.what.find_first_of(">#=:")); C.count("probe_" + kind + "_ev_" + w); }
+  static std::set<std::string> sampled;
+  if (!sampled.count(kind)) { sampled.insert(kind); std::string t = kind + " probe, reference trace:"; for (size_t i = 0; i < a.size() && i < 60; i++) { t += " +" + std::to_string(a[i].t) + ":" + a[i].what; } FILE *f = fopen((C.outdir + "/probe_" + kind + ".txt").c_str(), "w"); if (f) { for (auto &e : a) fprintf(f, "+%u %s\n", e.t, e.what.c_str()); fclose(f); } C.sample(t.substr(0, 900)); }
+  uint32_t tol = T32B ? 1 : 0;
+  size_t n = a.size() < b.size() ? a.size() : b.size(), i = 0;
+  while (i < n && a[i].what == b[i].what && (a[i].t > b[i].t ? a[i].t - b[i].t : b[i].t - a[i].t) <= tol) i++;
+  if (i < a.size() || i < b.size()) {
+    std::string ea = i < a.size() ? "+" + std::to_string(a[i].t) + " " + a[i].what : "<none>", eb = i < b.size() ? "+" + std::to_string(b[i].t) + " " + b[i].what : "<none>";
+    std::string w = (i < a.size() ? a[i].what : b[i].what); w = w.substr(0, w.find_first_of(">#=:"));
+    C.fail(std::string("C13:origin-dependence:") + FLAVOR + ":" + kind + ":" + w, "%s probe from origin %llu: %zu events, from origin %llu: %zu; first difference at event %zu: %s / %s",
+           kind.c_str(), (unsigned long long)oa, a.size(), (unsigned long long)ob, b.size(), i, ea.c_str(), eb.c_str());
+  }
+  // the probe must really exercise its machine (harness self-check on the reference run)
+  auto has = [&](const char *p) { for (auto &e : a) if (e.what.compare(0, strlen(p), p) == 0) return true; return false; };
+  if (kind == "tp" && !(has("RTS") && has("CTS") && has("EndAck") && has("BAM") && has("DT") && has("Abort") && has("deliver:126720") && has("sendB2=0") && has("sendC=1") && has("sendD=1")))
+    C.fail("harness:probe-tp-coverage", "TP probe did not show RTS/CTS/EndAck/BAM/DT/Abort/deliveries/time-outs");
+  if (kind == "slots") { int del = 0; for (auto &e : a) if (e.what.compare(0, 8, "deliver:") == 0) del++; if (del != 5 || !has("deliver:129029:46") || !has("deliver:129029:70")) C.fail("harness:probe-slots-coverage", "slot probe delivered %d messages, expected 5 (46 and 43 after recycling the slots of 40 and 41; 70 after recycling one of 60..64, and 60, 61)", del); }
+  if (kind == "pend") { int p1 = 0, p2 = 0; for (auto &e : a) { if (e.what.compare(0, 10, "pgn126996#") == 0) p1++; if (e.what.compare(0, 10, "pgn126998#") == 0) p2++; } if (p1 < 40 || p2 < 10) C.fail("harness:probe-pend-coverage", "pending-information probe saw %d / %d frames", p1, p2); }
+  C.cases++;
+}
+
 // ------------------------------------------------------------------------------------------------ generators
 static std::vector<std::string> script;            // ops of the current scenario after reset0 (recorded during the first run)
 static void doOp(const std::string &l) { script.push_back(l); exec(l); }
@@ -627,6 +764,16 @@ int main(int argc, char **argv) {
     for (int i = 0; i < extra; i++) os.push_back(i % 3 == 0 ? 0x80000000ULL - R.below(17000) : i % 3 == 1 ? 0x80000000ULL + R.below(17000) : 0x100000000ULL - 1 - R.below(17000));
     if (!T32B) { os.push_back(0x100000000ULL + 12345); os.push_back((1ULL << 40) + R.below(100000)); }
     for (uint64_t o : os) exec("devlist 1000 " + std::to_string(o));
+  }
+  // ISO-TP sessions, reassembly-slot time-outs and pending-information retries from origin 1000 and from origins whose 32-bit clock
+  // wraps / passes 2^31 inside the probe (probe lengths 3.4 s / 1.6 s / 3.9 s incl. 700 ms open+claim)
+  for (const char *kind : {"tp", "slots", "pend"}) {
+    uint64_t len = !strcmp(kind, "slots") ? 1600 : 3900;
+    std::vector<uint64_t> os = {0x100000000ULL - 1000, 0x100000000ULL - len + 100, 0x80000000ULL - 1200, 0x80000000ULL + 77};
+    int extra = C.thorough ? 10 : 2;
+    for (int i = 0; i < extra; i++) os.push_back(i % 2 == 0 ? 0x100000000ULL - 1 - R.below(len) : 0x80000000ULL - R.below(len));
+    if (!T32B) os.push_back((1ULL << 40) + R.below(100000));
+    for (uint64_t o : os) exec(std::string("probe ") + kind + " 1000 " + std::to_string(o));
   }
   int nSparse = C.thorough ? 400 : 60, nDense = C.thorough ? 150 : 20, nBp = C.thorough ? 80 : 10;
   for (int i = 0; i < nSparse; i++) scenario(R, 0);
